@@ -11,4 +11,6 @@ cp /repo/Cargo.lock replay/Cargo.lock
 python3-vt -c "from mirsym import harness; print('replay binary:', harness.build_replay())"
 # 3. conformance of the std models against the real std (native) and of the engine against the repo's own test inputs
 if [ -f conformance/run.py ]; then python3-vt conformance/run.py; fi
+# 4. the same for whole scripts over ~200 SDK commands (variables, scope stack, collections, strings, flow control, functions)
+if [ -f conformance/scripts.py ]; then CONF_SCRIPTS=${CONF_SCRIPTS:-150} python3-vt conformance/scripts.py; fi
 echo setup ok
